@@ -18,6 +18,10 @@ def gen_range(src, out):
     txt += "Definition RMAX_UNSORTED : N := %d%%N.\n" % rmaxu
     txt += "Definition GAP : Z := %d%%Z.\n" % gap
     txt += "Definition BOUNDARY : list N := %s.\n" % bytes_lit(boundary)
+    d = strip_comments(rd(src, "http_date.c"))
+    m = re.search(r"return\s*\(\s*lmtime\s*(>=?)\s*TIME64_CAST\(ifmtime\)", d)
+    if not m: problems.append("http_date_if_modified_since: comparison 'lmtime > ifmtime' not found")
+    txt += "Definition ims_compare_is_strict_gt : bool := %s.\n" % ("true" if m and m.group(1) == ">" else "false")
     write_if_changed(os.path.join(out, "GenRange.v"), txt)
 
 
